@@ -864,3 +864,44 @@ def gen_corpus_mutations(rng, files, per_file):
             continue
         for _ in range(per_file):
             yield {"op": "tzif", "a": {"bytes": list(mutate_file(rng, data))}, "g": 1, "file": rel}
+
+
+# ---- C20 ----
+def tiny_tzif(rng):
+    """a valid little v1 file: one type"""
+    off = rng.choice([0, 3600, -18000])
+    name = rng.choice([b"UTC", b"CET", b"XYZ"])
+    return b"TZif" + b"\x00" + b"\x00" * 15 + struct.pack(">6I", 0, 0, 0, 0, 1, len(name) + 1) + struct.pack(">iBB", off, 0, 0) + name + b"\x00"
+
+
+def gen_resolve(rng, n):
+    dirpool = ["/usr/share/zoneinfo", "/share/zoneinfo", "/etc/zoneinfo", "/z", "rel", "/a/b", ""]
+    names = ["Europe/Paris", "UTC0", "EST5EDT,M3.2.0,M11.1.0", "localtime", "A", "/abs/zone", "x/../y", "UTC", "Bad Name", "EST5", "<-03>3", "posix/UTC"]
+    for _ in range(n):
+        dirs = [rng.choice(dirpool) for _ in range(rng.randint(0, 4))]
+        base = rng.choice(names)
+        k = rng.random()
+        s = base
+        if k < 0.2:
+            s = ":" + base
+        elif k < 0.3:
+            s = "::" + base
+        elif k < 0.45:
+            s = rng.choice([" ", "\t", "\n"]) + base + rng.choice(["", " ", "\r\n"])
+        elif k < 0.5:
+            s = rng.choice(["", ":", " ", "localtime ", ":localtime", "/etc/localtime"])
+        stems = {s, s.strip(" \t\n\r\x0c"), s.lstrip(":"), ":" + s}
+        cands = ["/etc/localtime"]
+        for st in stems:
+            cands.append(st)
+            for d in dirs:
+                cands.append(d + "/" + st)
+        vfs = []
+        for p in cands:
+            r = rng.random()
+            if r < 0.55:
+                continue
+            content = list(tiny_tzif(rng)) if r < 0.8 else ([-1] if r < 0.9 else list(rng.choice([b"", b"TZif9", b"garbage", tiny_tzif(rng)[:-2]])))
+            vfs.append([B(p), content])
+        rng.shuffle(vfs)
+        yield {"op": "resolve", "a": {"s": B(s), "dirs": [B(d) for d in dirs], "vfs": vfs, "via": "posix"}, "g": 1}
